@@ -12,6 +12,10 @@ CHECKS = {
                   "covers": ["done"], "targets": ["commitLog).Append", "Reader).ReadMessage"]},
                  {"name": "VerifC01Ops", "quick": {"steps": 2}, "thorough": {"steps": 3, "shapes": 2, "headers": 1, "setsize": 1}, "max-paths": 1000000,
                   "covers": ["done", "append", "append-set", "truncate", "reopen"], "targets": ["commitLog).Truncate", "commitLog).AppendMessageSet"]},
+                 {"name": "VerifC01Headers", "quick": {"msgs": 1}, "thorough": {"msgs": 2}, "max-paths": 1000000,
+                  "covers": ["done", "append-set", "reopen", "two-headers"], "targets": ["Message).Encode", "SerializedMessage).Headers", "commitLog).AppendMessageSet"]},
+                 {"name": "VerifC01IndexGrowth", "quick": {"batches": 2}, "thorough": {"batches": 3}, "max-paths": 1000000,
+                  "covers": ["done", "grown", "batch-straddles-the-mapped-end"], "targets": ["index).writeAt", "index).writeEntries", "index).InitializePosition", "indexScanner).Scan"]},
                  {"name": "VerifC01LiveReader", "quick": {"msgs": 3}, "thorough": {"msgs": 4},
                   "covers": ["done", "truncate-above-reader", "append-after-reader"], "targets": ["commitLog).Truncate"]},
              ]},
@@ -57,6 +61,9 @@ CHECKS = {
                  {"name": "VerifC03Schedules", "quick": {"appends": 2, "rolls": 1, "hwsets": 2, "preemptions": 1}, "thorough": {"appends": 2, "rolls": 1, "hwsets": 2, "preemptions": 2},
                   "replay": "interpreted", "max-paths": 1000000,
                   "covers": ["done"], "targets": ["commitLog).rollActiveSegment", "commitLog).Append", "committedReader).Read"]},
+                 {"name": "VerifC03HWWriters", "quick": {"msgs": 3, "preemptions": 1}, "thorough": {"msgs": 3, "preemptions": 2},
+                  "replay": "interpreted", "max-paths": 1000000,
+                  "covers": ["done"], "targets": ["commitLog).SetHighWatermark", "commitLog).notifyHWChange", "committedReader).Read"]},
                  {"name": "VerifC03Readonly", "quick": {"msgs": 3, "preemptions": 1, "merged": 1}, "thorough": {"msgs": 3, "preemptions": 2, "merged": 0},
                   "replay": "interpreted", "max-paths": 1000000,
                   "covers": ["done"], "targets": ["commitLog).SetReadonly", "commitLog).notifyReadonly", "commitLog).waitForHW", "committedReader).Read"]},
